@@ -172,7 +172,8 @@ def run(tier, report):
                     if leaf is None:
                         continue
                     report.violation(
-                        {"check": "C04.variants", "variant": vname, "exc": type(leaf).__name__},
+                        {"check": "C04.variants", "variant": vname, "exc": type(leaf).__name__,
+                         **({"datum_kind": "type"} if isinstance(datum.fresh(), type) else {})},
                         f"{vname} [{wname}] <- {datum.name} [{mode_name(mode)}]: escaping {type(out.exc).__name__}"
                         + (f" wrapping {type(leaf).__name__}" if leaf is not out.exc else "") + f": {str(leaf)[:100]}",
                         {"kind": "variant", "variant": vname, "position": wname, "datum": datum.name, "mode": list(mode)})
